@@ -41,7 +41,8 @@ Section RESP.
 
   Definition header_check (o : vopts) (h : hdr) : rres :=
     match h_schema h with
-    | None => RPanic "response header defined by content: decodeValue dereferences a nil schema"
+    | None =>   (* defined by `content`: only its presence is checked *)
+        if h_required h && negb (h_found h) then RErr (RHeaderMissing (h_name h)) else ROk
     | Some s =>
         if h_found h then
           match h_decoded h with
